@@ -427,6 +427,15 @@ impl<T> NFA<T> {
     }
 }
 
+/// Verification hooks (add-only, compiled only with the `verif-hooks` feature)
+#[cfg(feature = "verif-hooks")]
+impl<T> NFA<T> {
+    /// ids of the start and stop states (the Debug output marks only the stop state)
+    pub fn verif_ends(&self) -> (usize, usize) {
+        (self.start.0, self.stop.0)
+    }
+}
+
 impl<'a, T> From<&'a str> for NFA<T> {
     fn from(string: &'a str) -> Self {
         let start = NFAStateId(0);
